@@ -433,6 +433,196 @@ theorem default_rank (ptrs : List PtrK) (tn tb : Str) (r : Option Int) (attrs : 
     · exact absurd hv h1
     · simp [h1, hv]
 
+/-! ### `fortran_generic`: every entry of the list is validated, whatever its position; an attribute
+name outside the allowed list is found wherever an argument can be written (docs/input.rst `fortran_generic`:
+"A list of argument lists"; docs/input.rst "Attributes") -/
+
+/-- **no internal failure** for functions with `fortran_generic` entries (any number of entries, any arguments) -/
+theorem verifyAttrsGeneric_no_crash (t : Tables) (patterns : List Str) (gens : List (List ADecl)) (d : ADecl) (e : String) :
+    checkFcnG t patterns gens d ≠ .crash e := NCa_ne (NCa_checkFcnG t patterns gens d) e
+
+theorem checkArgOne_ok_names (t : Tables) (pats : List Str) (hn : Bool) (ptrs : List PtrK) (a c h : Bool)
+    (tn tb sg : Str) (fp : Bool) (nt : Nat) (tt : Bool) (attrs : List (Str × AVal)) (r : Norm)
+    (hok : checkArgOne t pats hn ptrs a c h tn tb sg fp nt tt attrs = .ok r) : firstIllegal t.argAttrs attrs = none := by
+  cases hf : firstIllegal t.argAttrs attrs with
+  | none => rfl
+  | some k => simp [checkArgOne, hf] at hok
+
+/-- an accepted argument has no attribute name outside the allowed list, on itself or on any parameter
+    (at any depth) of a function-pointer argument -/
+theorem accepted_has_no_illegal_name (t : Tables) (pats : List Str) :
+    ∀ d hn r, checkArg t pats hn d = .ok r → illegalAt t d = false := by
+  intro d
+  refine ADecl.rec (motive_1 := fun d => ∀ hn r, checkArg t pats hn d = .ok r → illegalAt t d = false)
+    (motive_2 := fun o => ∀ ps, o = some ps → ∀ hn r, checkArgs t pats hn ps = .ok r → illegalAny t ps = false)
+    (motive_3 := fun l => ∀ hn r, checkArgs t pats hn l = .ok r → illegalAny t l = false) ?_ ?_ ?_ ?_ ?_ d
+  · intro ptrs arr c htm tn tb sg fp ini nt ttm nm attrs params ih hn r h
+    unfold checkArg at h
+    unfold illegalAt
+    split at h
+    · cases h
+    · cases h
+    · rename_i me hme
+      have h0 := checkArgOne_ok_names t pats hn ptrs arr c htm tn tb sg fp nt ttm attrs me hme
+      simp only [h0, Option.isSome_none, Bool.false_or]
+      cases fp with
+      | false => simp
+      | true =>
+        simp only [if_true, Bool.true_and] at h ⊢
+        cases params with
+        | none => rfl
+        | some ps =>
+          simp only at h ⊢
+          split at h
+          · rename_i rest hrest; exact ih ps rfl false rest hrest
+          · cases h
+          · cases h
+  · intro ps h; cases h
+  · intro l ih ps h hn r hr; cases h; exact ih hn r hr
+  · intro hn r _; simp [illegalAny]
+  · intro a l iha ihl hn r h
+    unfold checkArgs at h
+    unfold illegalAny
+    split at h
+    · cases h
+    · split at h
+      · cases h
+      · cases h
+      · rename_i ra hra
+        split at h
+        · rename_i rb hrb
+          simp [iha hn ra hra, ihl hn rb hrb]
+        · cases h
+        · cases h
+
+theorem checkGeneric_ok (t : Tables) (pats : List Str) (g : List ADecl) (a : List Norm)
+    (h : checkGeneric t pats g = .ok a) :
+    checkGenericArgs t pats g = .ok a ∧ checkImpliedAll (g.map (·.name)) g = .ok () := by
+  unfold checkGeneric at h
+  split at h
+  · cases h
+  · cases h
+  · rename_i a' ha
+    split at h
+    · rename_i u hu; cases h; exact ⟨ha, by cases u; exact hu⟩
+    · cases h
+    · cases h
+
+/-- **every entry, at every position**: if the loop over the `fortran_generic` list succeeds, then each entry's
+    arguments passed `check_arg_attrs` and each entry's implied expressions passed `check_implied_attrs`
+    against that entry's own argument names -/
+theorem generic_every_entry_checked (t : Tables) (pats : List Str) :
+    ∀ gs r, checkGenerics t pats gs = .ok r →
+      ∀ g ∈ gs, (∃ a, checkGenericArgs t pats g = .ok a) ∧ checkImpliedAll (g.map (·.name)) g = .ok () := by
+  intro gs
+  induction gs with
+  | nil => intro r _ g hg; cases hg
+  | cons g0 gs ih =>
+    intro r h g hg
+    unfold checkGenerics at h
+    split at h
+    · cases h
+    · cases h
+    · rename_i a ha
+      split at h
+      · rename_i b hb
+        cases hg with
+        | head => exact ⟨⟨a, (checkGeneric_ok t pats g0 a ha).1⟩, (checkGeneric_ok t pats g0 a ha).2⟩
+        | tail _ hm => exact ih b hb g hm
+      · cases h
+      · cases h
+
+/-- every argument of an accepted entry passed `check_arg_attrs` -/
+theorem generic_entry_every_arg_checked (t : Tables) (pats : List Str) :
+    ∀ g a, checkGenericArgs t pats g = .ok a → ∀ d ∈ g, ∃ n, checkArg t pats true d = .ok n := by
+  intro g
+  induction g with
+  | nil => intro a _ d hd; cases hd
+  | cons d0 ds ih =>
+    intro a h d hd
+    unfold checkGenericArgs at h
+    split at h
+    · cases h
+    · cases h
+    · rename_i n hn
+      split at h
+      · rename_i b hb
+        cases hd with
+        | head => exact ⟨n, hn⟩
+        | tail _ hm => exact ih b hb d hm
+      · cases h
+      · cases h
+
+/-- an entry (first, middle, last) with an undocumented attribute name on one of its arguments - or on a
+    parameter of a function-pointer argument of the entry - makes the whole list a reject -/
+theorem generic_illegal_name_rejected (t : Tables) (pats : List Str) (gs : List (List ADecl)) (g : List ADecl)
+    (d : ADecl) (hg : g ∈ gs) (hd : d ∈ g) (hbad : illegalAt t d = true) :
+    ∃ id, checkGenerics t pats gs = .reject id := by
+  cases h : checkGenerics t pats gs with
+  | reject i => exact ⟨i, rfl⟩
+  | crash e => exact absurd h (NCa_ne (NCa_checkGenerics t pats gs) e)
+  | ok r =>
+    obtain ⟨⟨a, ha⟩, _⟩ := generic_every_entry_checked t pats gs r h g hg
+    obtain ⟨n, hn⟩ := generic_entry_every_arg_checked t pats g a ha d hd
+    have := accepted_has_no_illegal_name t pats d true n hn
+    rw [this] at hbad; cases hbad
+
+/-- an entry (at any position) whose implied expressions do not pass against the entry's own argument names
+    makes the whole list a reject -/
+theorem generic_bad_implied_rejected (t : Tables) (pats : List Str) (gs : List (List ADecl)) (g : List ADecl)
+    (hg : g ∈ gs) (i : String) (hbad : checkImpliedAll (g.map (·.name)) g = .reject i) :
+    ∃ id, checkGenerics t pats gs = .reject id := by
+  cases h : checkGenerics t pats gs with
+  | reject i => exact ⟨i, rfl⟩
+  | crash e => exact absurd h (NCa_ne (NCa_checkGenerics t pats gs) e)
+  | ok r =>
+    have := (generic_every_entry_checked t pats gs r h g hg).2
+    rw [this] at hbad; cases hbad
+
+theorem checkFcnG_ok_generics (t : Tables) (pats : List Str) (gens : List (List ADecl)) (d : ADecl) (r : List Norm)
+    (h : checkFcnG t pats gens d = .ok r) (hne : gens ≠ []) : ∃ r', checkGenerics t pats gens = .ok r' := by
+  obtain ⟨ptrs, arr, c, htm, tn, tb, sg, fp, ini, nt, ttm, nm, attrs, params⟩ := d
+  have he : gens.isEmpty = false := by cases gens <;> simp_all
+  cases hf : firstIllegal t.fcnAttrs attrs with
+  | some k => simp [checkFcnG, hf] at h
+  | none =>
+    simp only [checkFcnG, hf] at h
+    revert h
+    generalize checkCommon t pats ptrs arr htm tn tb _ attrs = cc
+    generalize checkArgs t pats true _ = ca
+    intro h
+    cases cc with
+    | reject i => simp at h
+    | crash e => simp at h
+    | ok dr =>
+      cases ca with
+      | reject i => simp at h
+      | crash e => simp at h
+      | ok args =>
+        cases hg : checkGenerics t pats gens with
+        | ok r' => exact ⟨r', rfl⟩
+        | reject i => simp [he, hg] at h
+        | crash e => simp [he, hg] at h
+
+/-- **`check_fcn_attrs` validates every `fortran_generic` entry**: a function whose list has, at any position, an
+    entry with an undocumented attribute name (on an argument or, at any depth, on a parameter of a function-pointer
+    argument) or with an implied expression that fails against the entry's own arguments ends in a diagnostic -/
+theorem fcn_generic_entry_rejected (t : Tables) (pats : List Str) (gens : List (List ADecl)) (d : ADecl) (g : List ADecl)
+    (hg : g ∈ gens)
+    (hbad : (∃ a ∈ g, illegalAt t a = true) ∨ ∃ i, checkImpliedAll (g.map (·.name)) g = .reject i) :
+    ∃ id, checkFcnG t pats gens d = .reject id := by
+  have hne : gens ≠ [] := by intro h; subst h; cases hg
+  cases h : checkFcnG t pats gens d with
+  | reject i => exact ⟨i, rfl⟩
+  | crash e => exact absurd h (verifyAttrsGeneric_no_crash t pats gens d e)
+  | ok r =>
+    obtain ⟨r', hr'⟩ := checkFcnG_ok_generics t pats gens d r h hne
+    rcases hbad with ⟨a, ha, hil⟩ | ⟨i, hi⟩
+    · obtain ⟨id, hid⟩ := generic_illegal_name_rejected t pats gens g a hg ha hil
+      rw [hr'] at hid; cases hid
+    · obtain ⟨id, hid⟩ := generic_bad_implied_rejected t pats gens g hg i hi
+      rw [hr'] at hid; cases hid
+
 /-! ### instances over the tables extracted from generate.py -/
 
 def codeTables : Tables :=
@@ -460,6 +650,43 @@ example : checkFcn codeTables [] (.mk [] false false true (sp "void") (sp "void"
       .mk [] false false true (sp "int") (sp "") (sp "native") false false 0 false (some (sp "n"))
         [(sp "implied", .text (sp "size(b)") [tk .ID "size", tk .LPAREN "(", tk .ID "b", tk .RPAREN ")"] none)] none]))
     = .reject "implied:unknown-argument" := by rfl
+
+/-- `void f(double *arg)` with `fortran_generic: [ (float *arg +bogus), (double *arg) ]`: the bad entry is the FIRST one
+    (non-vacuity of `fcn_generic_entry_rejected`, first alternative) -/
+example : checkFcnG codeTables []
+    [[.mk [.star] false false true (sp "float") (sp "") (sp "native") false false 0 false (some (sp "arg")) [(sp "bogus", .bare)] none],
+     [.mk [.star] false false true (sp "double") (sp "") (sp "native") false false 0 false (some (sp "arg")) [] none]]
+    (.mk [] false false true (sp "void") (sp "void") (sp "void") false false 0 false (some (sp "f")) []
+      (some [.mk [.star] false false true (sp "double") (sp "") (sp "native") false false 0 false (some (sp "arg")) [] none]))
+    = .reject "arg:illegal-attribute:bogus" := by rfl
+
+example : illegalAt codeTables
+    (.mk [.star] false false true (sp "float") (sp "") (sp "native") false false 0 false (some (sp "arg")) [(sp "bogus", .bare)] none) = true := by rfl
+
+/-- `void f(int n, int (*cb)(int *x +bogus))`: the name sits on a parameter of a function-pointer argument -/
+example : illegalAt codeTables
+    (.mk [.star] false false true (sp "int") (sp "") (sp "native") true false 0 false (some (sp "cb")) []
+      (some [.mk [.star] false false true (sp "int") (sp "") (sp "native") false false 0 false (some (sp "x")) [(sp "bogus", .bare)] none])) = true := by rfl
+
+/-- entries `(float *arg +rank(1), int n +implied(size(args)))`, `(double *arg +rank(1))`: the unknown argument `args`
+    of the FIRST entry is diagnosed although the last entry is fine (second alternative) -/
+example : checkFcnG codeTables []
+    [[.mk [.star] false false true (sp "float") (sp "") (sp "native") false false 0 false (some (sp "arg"))
+        [(sp "rank", .text (sp "1") [tk .INTEGER "1"] (some 1))] none,
+      .mk [] false false true (sp "int") (sp "") (sp "native") false false 0 false (some (sp "n"))
+        [(sp "implied", .text (sp "size(args)") [tk .ID "size", tk .LPAREN "(", tk .ID "args", tk .RPAREN ")"] none)] none],
+     [.mk [.star] false false true (sp "double") (sp "") (sp "native") false false 0 false (some (sp "arg"))
+        [(sp "rank", .text (sp "1") [tk .INTEGER "1"] (some 1))] none]]
+    (.mk [] false false true (sp "void") (sp "void") (sp "void") false false 0 false (some (sp "f")) []
+      (some [.mk [.star] false false true (sp "double") (sp "") (sp "native") false false 0 false (some (sp "arg"))
+        [(sp "rank", .text (sp "1") [tk .INTEGER "1"] (some 1))] none]))
+    = .reject "implied:unknown-argument" := by rfl
+
+/-- `void f(double arg +intent(IN))`: an explicit, redundant intent(in) on a by-value argument is accepted -/
+example : checkFcn codeTables [] (.mk [] false false true (sp "void") (sp "void") (sp "void") false false 0 false (some (sp "f")) []
+    (some [.mk [] false false true (sp "double") (sp "") (sp "native") false false 0 false (some (sp "arg"))
+      [(sp "intent", .text (sp "IN") [tk .ID "IN"] none)] none]))
+    = .ok [⟨none, false, none, none⟩, ⟨some (sp "in"), true, none, none⟩] := by rfl
 
 end Shroud.Attrs
 
